@@ -100,7 +100,7 @@ fn main() {
             let opts = replay::Opts { serde: args.iter().any(|a| a == "--serde") };
             ctx.serde = opts.serde;
             let current = Arc::new(std::sync::Mutex::new(String::new()));
-            start_watchdog(Duration::from_secs(10), current.clone());
+            start_watchdog(Duration::from_secs(90), current.clone());
             let file = std::fs::File::open(&path).unwrap_or_else(|e| {
                 eprintln!("replay: cannot open {}: {}", path, e);
                 std::process::exit(2)
